@@ -60,6 +60,8 @@ pub mod stack;
 pub mod thread;
 pub mod types;
 pub mod vm;
+#[cfg(gluon_verif)]
+pub mod verif;
 
 mod array;
 mod derive;
